@@ -114,6 +114,17 @@ CHECKS = {
         "Trusted: reference follower / wiring / matrices in mc/ref.py and mc/c07.py; numpy. 'Satisfies a "
         "snake equation' is read type-wise (cup.dom == reversed cap.cod). Bounds in evidence.",
         "DESIGN.md 4/C07"),
+    "C08": (
+        "exhaustive enumeration of all dimension tuples / pairs / quadruples up to the bound with generic "
+        "arrays, the real Tensor operations compared exactly with reference matrices",
+        "For every (dom, cod) over {2,3}^<=3: stored data, dagger = conjugate transpose, identities, unit "
+        "laws, Dim(1) dropping, cups/caps against index-by-index reference matrices and both snake "
+        "equations; for every quadruple of types up to the pair bound: >> = matrix product, @ = Kronecker "
+        "product, swap = block permutation matrix, naturality of swaps and the interchange law, all as exact "
+        "equalities of Gaussian-integer matrices.",
+        "Trusted: numpy matmul/kron/reshape/conj (tensordot/moveaxis, which the code under test uses, are "
+        "not used by the reference). Dimensions are drawn from {2,3}; lengths bounded as in the evidence.",
+        "DESIGN.md 4/C08"),
 }
 
 PENDING_REASON = ("check not built yet in this session (planned: bounded exhaustive exploration as in "
